@@ -215,6 +215,9 @@ def build(trace, spec, top=True, registry=None):
     kwds = dict(jobs_window=spec.get('window'), timeout=spec.get('timeout'),
                 shutdown_timeout=spec.get('sdt', 1),
                 verbose=spec.get('verbose', False))
+    if spec.get('watch'):
+        from asynciojobs import Watch
+        kwds['watch'] = Watch()
     if top and spec.get('pure'):
         sched = VPureScheduler(*members, **kwds)
     else:
@@ -382,7 +385,11 @@ def execute(spec, loop_seed=None, horizon=None, quiescent=None, run_on=1000.0,
                     loop.horizon = loop.time() + 1000
                     loop.iterations = 0
                     try:
-                        exe.explicit_shutdown = ('return', loop.run_until_complete(top.co_shutdown()))
+                        if len(spec['jobs']) % 2:
+                            # the synchronous wrapper
+                            exe.explicit_shutdown = ('return', top.shutdown())
+                        else:
+                            exe.explicit_shutdown = ('return', loop.run_until_complete(top.co_shutdown()))
                     except (Wedged, Horizon) as exc:
                         exe.explicit_shutdown = ('stuck', str(exc))
                     except BaseException as exc:        # noqa
